@@ -22,5 +22,13 @@ pub assume_specification<T, P: FnOnce(&T) -> bool>[ Option::<T>::filter::<P> ](o
 pub assume_specification<T: Eq + Hash, const N: usize>[ <HashSet<T> as From<[T; N]>>::from ](arr: [T; N]) -> (r: HashSet<T>)
     ensures r@ == arr@.to_set();
 pub assume_specification[ <i64 as From<u32>>::from ](x: u32) -> (r: i64) ensures r == x as i64;
+pub assume_specification[ i64::unsigned_abs ](x: i64) -> (r: u64)
+    ensures (r as int) == (if (x as int) < 0 { -(x as int) } else { x as int });
+pub assume_specification[ i64::wrapping_neg ](x: i64) -> (r: i64)
+    ensures (r as int) == (if x == i64::MIN { i64::MIN as int } else { -(x as int) });
+pub assume_specification[ i64::wrapping_abs ](x: i64) -> (r: i64)
+    ensures (r as int) == (if x == i64::MIN { i64::MIN as int } else if (x as int) < 0 { -(x as int) } else { x as int });
+pub assume_specification[ i64::checked_neg ](x: i64) -> (r: Option<i64>)
+    ensures match r { Some(v) => (v as int) == -(x as int), None => x == i64::MIN };
 // Vec lengths never exceed usize::MAX (std: capacity <= isize::MAX)
 pub axiom fn axiom_vec_len_bound<T>(v: &Vec<T>) ensures v@.len() <= usize::MAX;
